@@ -288,6 +288,11 @@ void __asan_poison_memory_region(void const volatile *addr, size_t size);
 void __asan_unpoison_memory_region(void const volatile *addr, size_t size);
 #endif
 
+/* set by the controlled scheduler when page recycling is on: large blocks served from inside pages the library gave back */
+static void *(*vh_take_page_block)(size_t n);
+static bool (*vh_give_page_block)(void *p);
+static size_t vh_page_blocks; /* how many blocks were served that way */
+
 /* set by the controlled scheduler: memory allocation is a place where a real thread can be preempted for long */
 static void (*vh_alloc_point)(void);
 static size_t vh_block_size_raw(void *p) {
@@ -313,6 +318,15 @@ static void *vh_acq(struct aws_allocator *a, size_t n) {
         }
     }
 #endif
+    if (!p && vh_take_page_block && n > 512) {
+        p = vh_take_page_block(n);
+        if (p) {
+            vh_page_blocks++;
+            vh_tab_put(p, n); /* contents deliberately left as found */
+            vh_total_acquires++;
+            return p;
+        }
+    }
     if (!p) {
         p = malloc(n ? n : 1);
     }
@@ -354,6 +368,9 @@ static void vh_rel(struct aws_allocator *a, void *p) {
     }
     size_t n = vh_block_size_raw(p);
     vh_note_release(p);
+    if (vh_give_page_block && n != (size_t)-1 && vh_give_page_block(p)) {
+        return;
+    }
 #ifndef VS_TSAN
     if (vh_recycle && n != (size_t)-1 && n > 0 && vh_nrcy < 128) {
         __asan_poison_memory_region(p, n);
